@@ -5571,6 +5571,10 @@ def symlink_to_bytes(symlink_target):
         else:
             symlink_data.extend(b'\x05')
             ostaname = _ostaunicode(comp)
+            if len(ostaname) > 255:
+                # The length of a component is stored in a single byte
+                # (ECMA-167, Part 4, 14.16.1).
+                raise pycdlibexception.PyCdlibInvalidInput('A component of a UDF symlink target is too long to fit in a UDF Path Component')
             symlink_data.append(len(ostaname))
             symlink_data.extend(b'\x00\x00')
             symlink_data.extend(ostaname)
